@@ -43,6 +43,9 @@ pub fn replay_set(rep: &mut Report, rec: &J) {
 		if obs != exp {
 			rep.mismatch("C20.set", json!({"what": "length / emptiness / rendering / membership differ from set semantics", "vector": rec, "expected": exp, "observed": obs}));
 		}
+		if let Some(r) = iter_routes(&|| s.iter(), &|k| json!(kind_no(k))) {
+			rep.mismatch("C20.iter", json!({"what": "consuming the set's iterator this way does not give the kinds next() gives", "vector": rec, "route": r}));
+		}
 		// all() and none()
 		if (s == KindSet::all()) != (rec["len"] == 6) || (s == KindSet::none()) != (rec["len"] == 0) {
 			rep.mismatch("C20.set", json!({"what": "all()/none() disagree with the set", "vector": rec}));
